@@ -96,6 +96,14 @@ def run(ctx):
     ctx.cov["rule"] = ("(hardware, old, new) over the shipped rulebooks: corpus samples, per-vendor cross products before x after, random trees "
                        "assembled from corpus blocks; non-trivial = distinct cases whose device-mode patch has at least one command")
     ctx.assumptions += ["no ACL, implicit defaults off, add_comments off", "equality of two implementation outputs: the TLA+ part is the judge and the domain, not a model"]
+    # design-level model of the two compositions with a patch logic that looks at the whole group of its key
+    r = ctx.mc("mc/MC_FrontEnds.tla", "mc/MC_FrontEnds.cfg", workers=2)
+    if r.violated:
+        ctx.reject("mc", "FrontEnds model: %s" % r.violated, {"tlc": r.out[-2000:]}, None)
+    r = ctx.mc("mc/MC_FrontEnds.tla", "mc/MC_FrontEnds_regress.cfg", workers=2, expect_ok=False)
+    if "Agree" not in r.violated:
+        raise core.Machinery("anti-vacuity: stripping before grouping (the pre-repair file mode) no longer breaks Agree in the model")
+    ctx.cov["mc_runs"][-1]["expected"] = "Agree violated (regression instance: strip_unchanged before make_pre)"
     samples = corpus.samples()
     byv = {}
     for s in samples:
